@@ -35,7 +35,7 @@ def cleanup_scratch() -> None:
     import shutil
 
     for base in ("/dev/shm", tempfile.gettempdir()):
-        for d in glob.glob(os.path.join(base, f"dst-c1?-{RUN_TAG}-*")):
+        for d in glob.glob(os.path.join(base, f"dst-c1?-{RUN_TAG}-*")) + glob.glob(os.path.join(base, f"dst-stage-{RUN_TAG}-*")):
             shutil.rmtree(d, ignore_errors=True)
 
 
